@@ -834,7 +834,7 @@ func sliceElem(e *Enc, st *State, s *T, i *T, et types.Type) *T {
 	es := e.sortOf(et)
 	h := st.get(elemHeap(es), arrSort(sRef, arrSort(sI64, es)))
 	arr := mk(sapp("select", h.S, sapp("sl_arr", s.S)), arrSort(sI64, es))
-	r := mk(sapp("select", arr.S, sapp("bvadd", sapp("sl_off", s.S), i.S)), es)
+	r := mk(sapp("select", arr.S, sapp("sidx", sapp("sl_off", s.S), i.S)), es)
 	r.GoT = et
 	return r
 }
@@ -1098,6 +1098,17 @@ func (x *Ex) call(v *ast.CallExpr, want *Sort) *T {
 		default:
 			return mk(fmt.Sprintf("((_ extract %d 0) %s)", n-1, a.S), bvSort(n, a.Sort.Signed))
 		}
+	case "as":
+		// as(x, T): the value of concrete type T held by interface value x
+		argN(2)
+		a := x.tr(v.Args[0], sIface)
+		so, t, ok := x.typeExpr(v.Args[1])
+		if !ok || t == nil {
+			fail("as: unknown type")
+		}
+		unf := "unI$" + so.KeyS()
+		x.enc.decl(unf, fmt.Sprintf("(declare-fun %s (Iface) %s)", unf, so.SMT()))
+		return mk(sapp(unf, a.S), so).withGo(t)
 	case "typeis":
 		// typeis(x, T): dynamic type of interface value x is T
 		argN(2)
